@@ -13,27 +13,64 @@ MANIFEST = dict(
     text=("(b) Bounded symbolic execution of the real add_constants (unyt_quantity, in_base, in_cgs, _check_em_conversion, "
           "_em_conversion, get_base_equivalent, _get_conversion_factor) on a registry of each of the 7 built-in unit systems with the "
           "table value of every constant replaced by a z3 real: X, every alias, X_mks and X_cgs have the SI magnitude v*scale(unit) "
-          "(charge constants in CGS: the documented factor 0.1*c statC/C) for ALL values v. (a) and (c) are GROUND: defining relations "
-          "(hbar=h/2pi, eps0*mu0*c^2=1, Stefan-Boltzmann, radiation constant, Rydberg, Planck units, qe=-qp, mu0=4pi 1e-7) and "
-          "value-vs-CODATA/IAU classes as exact-rational z3 facts over the current floats; names that are both unit and constant "
+          "(charge constants in CGS: the documented factor 0.1*c statC/C) for ALL values v. Registry configurations: the same for a "
+          "registry of each built-in system in which every row the system's units or the table's units are written in was given a "
+          "new size (z3 positive real) with modify() - before the first use, or after constants had been built once - and for two "
+          "user-defined systems on rows of symbolic size (one of them Gaussian: no MKS current); the expected magnitude is computed "
+          "by the harness from the table unit string and the sizes it handed in. In-place histories: every name x guise of every "
+          "constant is converted in place in turn (convert_to_mks / _cgs / _base / _units into a sibling guise's unit / into 1000 x "
+          "its own unit; 7 systems) and after each conversion ALL names and guises of the constant must still be the tabulated "
+          "quantity, for all values; no two objects of a constants namespace (default namespace included) share memory. Forced "
+          "warm histories: plain registry after an edited one of the same system and vice versa. (a) and (c) are GROUND: defining "
+          "relations (hbar=h/2pi, eps0*mu0*c^2=1, Stefan-Boltzmann, radiation constant, Rydberg, Planck units, qe=-qp, mu0=4pi 1e-7) "
+          "and value-vs-CODATA/IAU classes as exact-rational z3 facts over the current floats; names that are both unit and constant "
           "compared in SI."),
     design="DESIGN.md section 4 C15",
     technique="symbolic execution of the real Python code over z3 real terms; ground exact-rational SMT facts; counterexample replay")
 EXPLANATION = (
     "The solver's share is part (b): the value of every constant is a z3 real (any sign), the unit systems, names, aliases and suffixes "
     "are enumerated exhaustively, and per unit system one path of the real add_constants yields ~290 quantities whose SI magnitudes are "
-    "proved equal to v*scale(table unit) for all v (dimension vectors compared independently). Parts (a) and (c) are ground: the "
+    "proved equal to v*scale(table unit) for all v (dimension vectors compared independently). Two further axes are walked with the "
+    "same symbolic values. (1) The registry configuration (family registry/*): a custom registry of each built-in system whose rows "
+    "were resized through the public modify() - every symbol that occurs in a unit of the system (kpc -> pc, Msun, Myr -> yr, AU, "
+    "Mearth, ft, lb, l_geom, m_pl, erg, dyn ...) and every symbol a constant is tabulated in (m, g, s, K, mol, J, W, N), each new "
+    "size a positive z3 real (the default size itself or more than 2e-3 away from it) - either before the registry is used or after "
+    "constants were built from it once (edit-after-use); and a user-defined system on harness rows xl/xm/xt(/xtemp/xen) of symbolic "
+    "size set as the registry's system (U1: three base units; U2: own temperature and energy units, no MKS current = Gaussian). "
+    "Oracle: X = v x (size of the table unit as the harness computes it from the unit string and the sizes it handed to modify; "
+    "symbols it did not touch at their table value); so a conversion factor, unit object or label taken from another registry (the "
+    "default one, the one the unit system was built in) or from before the edit shows up as a term in the wrong size. Constants "
+    "tabulated in untouched units are thereby proved equal to the default ones for every size of the system's units. (2) The "
+    "history/aliasing axis (family inplace/*): one constant is up to 24 objects (spellings x {X, X_mks, X_cgs}, plus hmks/hcgs); "
+    "each of them in turn is converted IN PLACE (5 conversions that keep the quantity; 7 systems) and after every single conversion "
+    "the conjunction 'every spelling and guise of this constant still has SI magnitude v*scale (charges in Gaussian form: "
+    "v*0.1c statC)' is decided for all v - a buffer, unit object or cached number shared between two names makes a sibling read the "
+    "rescaled number under its old unit. Independently, numpy's overlap test must find no two distinct objects of a namespace "
+    "(every built namespace and unyt.physical_constants) on the same memory. Warm variants (history axis of the engine) add: the "
+    "plain registry of a system after an edited one and the other way round, in-place families after each other. "
+    "Parts (a) and (c) are ground: the "
     "quantifier is the finite set of rows/relations; each float of the current tables is taken as an exact rational and the relation "
     "is asserted with a stated tolerance (float rounding 1e-13 for defining relations, CODATA 1e-6 / IAU 1e-3 classes for measured "
     "values). The independent value table is the trusted base of (a)."
 )
 BOUNDS = {
-    "quick": "all 39 constants x all alias names x {X, X_mks, X_cgs} x 7 built-in unit systems (symbolic values); 18 defining relations, "
-             "39 values vs CODATA/IAU class, every name that is both a unit and a constant (ground)",
-    "thorough": "same (the property's space is finite and is covered exhaustively in both tiers)",
+    "quick": "all 39 constants x all alias names x {X, X_mks, X_cgs} x 7 built-in unit systems (symbolic values); x registry "
+             "configurations {plain, rows resized before use, rows resized after use} per built-in system (all symbols of the system's "
+             "and the table's units resized at once, sizes symbolic; Gaussian/charge/offset rows not resized) + 2 user-defined systems "
+             "(symbolic base sizes); in-place histories: 7 systems x 5 in-place conversions x every name x guise touched in turn "
+             "(cumulatively within a constant), all names x guises of that constant read after each; no-shared-memory over all pairs of "
+             "every namespace; forced warm pairs plain<->edited for 3 systems (thorough: 7) + the engine's sampled warm variants; "
+             "18 defining relations, 39 values vs CODATA/IAU class, every name that is both a unit and a constant (ground)",
+    "thorough": "same cases (the property's discrete space is finite and is covered in both tiers); forced warm pairs for all 7 systems and the "
+                "larger warm sample",
 }
-OUTSIDE = ("user-defined unit systems; constants in registries whose unit scales were modified (C12); IEEE rounding of the conversions (A1); "
-           "correctness of the independent CODATA/IAU table (trusted base of part a)")
+OUTSIDE = ("registry edits other than modify() of existing rows (remove/re-add, edits between the constants of one namespace: C12); resized "
+           "Gaussian and charge/current rows (statC, G, C, A: the SI<->Gaussian charge route is a fixed documented factor) and offset rows; "
+           "rows resized one at a time (all are resized together, each to an independent size); user-defined systems beyond the two "
+           "variants (C10 walks that axis for in_base); in-place operations that change the quantity of the object they are applied to "
+           "(*=, fill, item assignment - the buffer-independence obligation covers their effect on siblings); new sizes closer than 2e-3 "
+           "(relative) to the default size but not equal to it; IEEE rounding of the conversions (A1); correctness of the independent "
+           "CODATA/IAU table (trusted base of part a)")
 CONFORM = {"quick": 8, "thorough": 8}
 
 C_CM = 29979245800.0
@@ -475,7 +512,23 @@ def make_both_case(mods):
     return Case("C15/ground/unit-and-constant", h, bounds=f"{len(names)} names that are both a unit spelling and a constant (ground)")
 
 
+_TIER = {"tier": "quick"}
+
+
+def WARM_PARTNERS(cases):
+    """forced histories across registries of one unit system: the plain registry after an edited one and the other way round
+    (whatever a conversion leaves behind under the system's name or a unit's spelling meets a registry with other sizes)"""
+    systems = SYSTEMS if _TIER["tier"] == "thorough" else ["galactic", "cgs", "imperial"]
+    out = {}
+    for s in systems:
+        out[f"C15/system/{s}"] = [f"C15/registry/{s}/edit"]
+        out[f"C15/registry/{s}/edit"] = [f"C15/system/{s}"]
+        out[f"C15/inplace/{s}/to_scaled"] = [f"C15/inplace/{s}/to_units"]
+    return out
+
+
 def cases(tier, mods):
+    _TIER["tier"] = tier
     check_names(mods, USER_NAMES)
     out = [make_system_case(s) for s in SYSTEMS]
     out += [make_registry_case(s, cfg) for s in SYSTEMS for cfg in ("edit", "edit-after-use")]
@@ -493,5 +546,5 @@ def coverage_extra(results, tier):
         d["cases"] += 1
         d["obligations"] += r["stats"]["obligations"]
         d["ground"] += r["stats"]["ground_true"]
-    return dict(parts=by, note="system/* are decided by z3 for all values of every constant; ground/* are exact-rational facts about the current tables")
+    return dict(parts=by, note="system/*, registry/* (resized rows, user-defined systems: sizes symbolic too) and inplace/* (in-place conversion histories) are decided by z3 for all values of every constant; ground/* are exact-rational facts about the current tables")
 
